@@ -202,10 +202,14 @@ def r3_limits(ctx, F):
                   "the error of run_infrequent_instr_checks is propagated with `?`",
                   "report_forward_progress drops the error of run_infrequent_instr_checks", fn=rfp)
         # the comparison that gates the check is `counter >= PERIOD`
-        ge = [st for st in rfp.stmts if st.kind.startswith("binop Ge")]
-        ctx.check(bool(ge), "C15.R3", "report_forward_progress:period-comparison",
-                  "the periodic check is gated by a >= comparison on the counter",
-                  "the period comparison in report_forward_progress changed shape", fn=rfp)
+        # the gate must be a threshold (monotone) comparison: the counter is not reset when a check fails, so an
+        # equality test would never fire again on a reused evaluator
+        mono = [st for st in rfp.stmts if re.match(r"binop (Ge|Gt|Le|Lt)\b", st.kind)]
+        ctx.check(bool(mono), "C15.R3", "report_forward_progress:period-comparison",
+                  "the periodic check is gated by a threshold comparison (>=) on the counter",
+                  "the periodic check is no longer gated by a threshold comparison on the counter (an equality test "
+                  "stops firing once the counter has passed the period, e.g. after a failed check on a reused "
+                  "evaluator)", fn=rfp)
     need = {
         "cancellation": lambda c: c.indirect or re.search(r"as std::ops::Fn<Args>>::call$", c.name) and "-> bool" in c.full,
         "heap limit": lambda c: re.search(r"Evaluator::<'v, 'a, 'e>::check_heap_size_limit$", c.name),
